@@ -152,9 +152,10 @@ def chord_y (x2 y2 x1 y1 : F) : F := chord_l x2 y2 x1 y1 * (x1 - chord_x x2 y2 x
 /-- `mapc(u)`: SSWU followed by the isogeny, as a group element -/
 noncomputable def mapc (u : F) : G := ptf (iso_x (sswu_x u)) (iso_y (sswu_x u) (sswu_y u)) (iso_z (sswu_x u))
 
-/-- The body of the lemma line `iso_hom_chord`, tagged `{lean: ASSUMED (RFC 9380 6.6.3: iso_map is a group
-homomorphism)}` in `/repo/contracts_verif.go`.  It is NOT proved here (no theorem `SecpSMT.iso_hom_chord` exists);
-this definition only records the literal translation of what is assumed. -/
+/-- The body of the lemma line `iso_hom_chord` of `/repo/contracts_verif.go` (RFC 9380 6.6.3: iso_map is a group
+homomorphism; the line was first tagged `{lean: ASSUMED ...}`): its literal translation, as a `Prop`.  It is proved in
+`SecpSMT3.lean`: `theorem SecpSMT.iso_hom_chord` has this statement verbatim, and
+`SecpSMT.iso_hom_chord_statement_holds : iso_hom_chord_statement x2 y2 x1 y1`. -/
 def iso_hom_chord_statement (x2 y2 x1 y1 : F) : Prop := (onE3 x2 y2 ∧ onE3 x1 y1 ∧ x1 ≠ x2) → ptf (iso_x (chord_x x2 y2 x1 y1)) (iso_y (chord_x x2 y2 x1 y1) (chord_y x2 y2 x1 y1)) (iso_z (chord_x x2 y2 x1 y1)) = ptf (iso_x x2) (iso_y x2 y2) (iso_z x2) + ptf (iso_x x1) (iso_y x1 y1) (iso_z x1)
 
 /-- the `//@ define rcbX ...` lines are `Secp.rcbX` etc. (literal forms with `F(21)`, `Y*Y`, ...) -/
@@ -572,7 +573,7 @@ theorem sq_zero (y : F) : (y * y = ((0 : ℤ) : F)) ↔ (y = ((0 : ℤ) : F)) :=
 /-! ### contracts_verif.go: map to curve
 
 `sswu_on_curve` and `iso_valid` are in `SecpSMT2.lean` (they need `SecpM`/`SecpI`, which clash with `SecpN`).
-`iso_hom_chord` is ASSUMED in the contract file and deliberately has no theorem (see `iso_hom_chord_statement`). -/
+`iso_hom_chord` is in `SecpSMT3.lean` (imports this file). -/
 
 theorem neg_zero_iff (y : F) : (-y = ((0 : ℤ) : F)) ↔ (y = ((0 : ℤ) : F)) := by
   rw [Int.cast_zero]; exact neg_eq_zero
